@@ -8,6 +8,7 @@ M = "scenic.core.simulators"
 
 def register(reg):
     register_replay(reg)
+    register_initialize_replay(reg)
     sim = C.Obj(f"{M}:Simulation", divergenceTolerance=C.Real(lo=0))
     # scalar dynamic properties
     reg.add(
@@ -194,3 +195,132 @@ def replay_record(inputs, clause):
         if len(calls) != 1 or calls[0][1] is not sim._replayOut:
             return f"recordSampledValue wrote {len(calls)} values to the recording (replaying={replaying}, recording on): a random value drawn during the run is missing from the saved replay"
     return None
+
+
+# ===================================================================================================
+# Simulation.initializeReplay: what the recording's header says is decided by THIS run's options only
+
+
+def register_initialize_replay(reg):
+    """C18: an encoded simulation replays to the same thing.  The header of the recording announces whether per-step
+    divergence data follow; it must agree with what this run writes (`_writeDivergenceData`), whatever the header of a
+    replay that is being played back at the same time says."""
+    import z3
+
+    from pyvc.interp import BuiltinFn
+    from pyvc.values import PObj, SV, compare, tobool
+
+    from .common import repo_class
+
+    def setup(I, env):
+        eng = I.eng
+        made = []
+
+        def serializer(*args, **kw):
+            s = PObj("Serializer", tag=f"serializer{len(made)}")
+            s.fields["_args"], s.fields["_kw"] = args, kw
+            s.fields["_header_written"] = []
+            in_flags = eng.fresh_int("flags_in_the_header_of_the_replay_being_played")
+            eng.assume(compare(">=", in_flags, 0))
+            eng.assume(compare("<=", in_flags, 1))
+            s.fields["_in_flags"] = in_flags
+            s.fields["readReplayHeader"] = BuiltinFn("readReplayHeader", lambda: in_flags)
+            s.fields["writeReplayHeader"] = BuiltinFn("writeReplayHeader", lambda flags: s.fields["_header_written"].append(flags))
+            made.append(s)
+            return s
+
+        reg.constructors[f"scenic.core.serialization:Serializer"] = lambda I_, cls, args, kw: serializer(*args, **kw)
+        install_replay_mode(reg)
+        has_replay = eng.choose(2, "a replay is played back?") == 1
+        enable = eng.choose(2, "recording enabled?") == 1
+        check = eng.choose(2, "divergence checking enabled for the recording?") == 1
+        eng.input_syms.append(("options", C.Const(None), dict(replay=has_replay, enableReplay=enable, enableDivergenceCheck=check)))
+        self = PObj(repo_class(f"{M}:Simulation"), tag="simulation")
+        env.vars.update(self=self, replay=(b"recorded" if has_replay else None), enableReplay=enable, enableDivergenceCheck=check, allowPickle=False, _made=made, _opts=(has_replay, enable, check))
+
+    def install_replay_mode(reg):
+        """ReplayMode(enum.IntFlag) with the single member checkDivergence = 1: flag sets are the integers themselves."""
+        from pyvc import builtins_model as bm
+        from pyvc.values import PyvcError, arith, sv_ite
+
+        xm = reg.extra_modules = getattr(reg, "extra_modules", None) or {}
+        xm["enum"] = bm.NativeModule("enum", {"auto": BuiltinFn("auto", lambda: 1), "IntFlag": object, "Enum": object})
+        reg.constructors[f"{M}:ReplayMode"] = lambda I_, cls, args, kw: args[0]
+        is_int = lambda v: (isinstance(v, int) and not isinstance(v, bool)) or (isinstance(v, SV) and z3.is_int(v.e))
+
+        def flag_contains(I_, container, x):
+            if is_int(container) and x == 1:
+                return compare("==", arith("%", container, 2), 1)
+            raise PyvcError("`in` not modelled")
+
+        def flag_or(I_, sym, a, b):
+            if sym is None and is_int(a) and b == 1:  # a | checkDivergence
+                return sv_ite(compare("==", arith("%", a, 2), 1), a, arith("+", a, 1))
+            raise PyvcError("binary operator not modelled")
+
+        reg.contains_fallback = flag_contains
+        reg.binop_fallback = flag_or
+
+    def post(I, env, outcome):
+        eng = I.eng
+        name = "simulators.Simulation.initializeReplay"
+        if outcome[0] != "return":
+            eng.check(f"{name}#no_exception", False)
+            return
+        self, made = env.vars["self"], env.vars["_made"]
+        has_replay, enable, check = env.vars["_opts"]
+        f = self.fields
+        eng.check(f"{name}#ensures.replaying_iff_a_replay_was_given", f.get("replaying") is has_replay)
+        ins = [s for s in made if s is f.get("_replayIn")]
+        outs = [s for s in made if s is f.get("_replayOut")]
+        if has_replay:
+            ok = len(ins) == 1 and ins[0].fields["_args"][:1] == (b"recorded",)
+            eng.check(f"{name}#ensures.input_serializer_reads_the_given_replay", ok)
+            if ok:
+                want = ins[0].fields["_in_flags"]
+                got = f.get("_checkDivergence")
+                eng.check(f"{name}#ensures.divergence_checked_iff_the_played_replay_carries_divergence_data", tobool(I.truth(got)) == tobool(compare("==", want, 1)))
+        if enable:
+            ok = len(outs) == 1 and outs[0].fields["_args"] == () and len(outs[0].fields["_header_written"]) == 1
+            eng.check(f"{name}#ensures.one_header_written_to_a_fresh_output_serializer", ok)
+            eng.check(f"{name}#ensures.divergence_data_written_iff_enabled", f.get("_writeDivergenceData") is check)
+            if ok:
+                flags = outs[0].fields["_header_written"][0]
+                # the header announces divergence data exactly when this run writes them
+                eng.check(f"{name}#ensures.header_of_the_recording_announces_divergence_data_iff_this_run_writes_them", compare("==", flags, 1 if check else 0))
+        else:
+            eng.check(f"{name}#ensures.no_recording_without_enableReplay", f.get("_replayOut") is None and all(not s.fields["_header_written"] for s in made))
+
+    def replay(inputs, clause):
+        """Three generations on the real DummySimulator: record with divergence data, play that back while recording
+        WITHOUT divergence data, then play the second recording back: it must replay to the same result."""
+        import scenic
+        from scenic.core.simulators import DummySimulator
+
+        src = "behavior B():\n    while True:\n        take 1\n        x = Range(0, 1)\nego = new Object with behavior B\nterminate after 3 steps\n"
+        for first_check, second_check in ((True, False), (False, True), (True, True), (False, False)):
+            sc = scenic.scenarioFromString(src, mode2D=True)
+            scene, _ = sc.generate()
+            simr = DummySimulator(drift=1)
+            s1 = simr.simulate(scene, maxSteps=5, enableReplay=True, enableDivergenceCheck=first_check)
+            try:
+                s2 = simr.replay(scene, s1.getReplay(), maxSteps=5, enableReplay=True, enableDivergenceCheck=second_check)
+                s3 = simr.replay(scene, s2.getReplay(), maxSteps=5)
+            except Exception as e:
+                return f"recording made with enableDivergenceCheck={first_check}, played back while recording with enableDivergenceCheck={second_check}: replaying the second recording raised {type(e).__name__}: {e}"
+            t1, t3 = s1.result.trajectory, s3.result.trajectory
+            if s3.result.terminationReason != s1.result.terminationReason or len(t1) != len(t3) or any(a != b for a, b in zip(t1, t3)):
+                return f"recording made with enableDivergenceCheck={first_check}, re-recorded with {second_check}: the second recording does not replay to the same trajectory"
+        return None
+
+    reg.add(
+        C.Contract(
+            f"{M}:Simulation.initializeReplay",
+            params=dict(self=C.Const(None), replay=C.Const(None), enableReplay=C.Const(None), enableDivergenceCheck=C.Const(None), allowPickle=C.Const(None)),
+            setup=setup,
+            post=post,
+            replay=replay,
+            properties=("C18",),
+        )
+    )
+    reg.trust("Serializer (constructed inside initializeReplay)", "record of its constructor arguments; readReplayHeader returns the flags of the replay being played (0 or 1: the only flag is checkDivergence), writeReplayHeader is logged; the header codecs have their own contracts")
